@@ -177,7 +177,7 @@ class GaussianUnitary(Compiler):
             modes = [modes_label.ind for modes_label in operations.reg]
             used_modes.append(modes)
         # pylint: disable=consider-using-set-comprehension
-        used_modes = list(set([item for sublist in used_modes for item in sublist]))
+        used_modes = sorted(set([item for sublist in used_modes for item in sublist]))
 
         # dictionary mapping the used modes to consecutive non-negative integers
         dict_indices = {used_modes[i]: i for i in range(len(used_modes))}
@@ -194,6 +194,10 @@ class GaussianUnitary(Compiler):
             name = operations.op.__class__.__name__
             params = par_evaluate(operations.op.p)
             modes = [modes_label.ind for modes_label in operations.reg]
+            dagger = getattr(operations.op, "dagger", False)
+            if dagger and name in ("Dgate", "Rgate", "Sgate", "S2gate", "BSgate"):
+                # the inverse of these gates is obtained by negating the first parameter
+                params[0] = -params[0]
             if name == "Dgate":
                 alpha = params[0] * (np.exp(1j * params[1]))
                 rnet[dict_indices[modes[0]]] += 2 * alpha.real
@@ -264,6 +268,8 @@ class GaussianUnitary(Compiler):
                     v = np.exp(1j * params[0])
                     u = np.exp(1j * params[1])
                     U = 0.5 * np.array([[u * (v - 1), 1j * (1 + v)], [1j * u * (1 + v), 1 - v]])
+                    if dagger:
+                        U = U.conj().T
                     Snet, rnet = _apply_symp_two_mode_gate(
                         interferometer(U),
                         Snet,
@@ -277,6 +283,8 @@ class GaussianUnitary(Compiler):
                     U = exp_sigma * np.array(
                         [[np.sin(delta), np.cos(delta)], [np.cos(delta), -np.sin(delta)]]
                     )
+                    if dagger:
+                        U = U.conj().T
                     Snet, rnet = _apply_symp_two_mode_gate(
                         interferometer(U),
                         Snet,
